@@ -19,7 +19,7 @@ type C01Case struct {
 }
 
 func genC01(t *rapid.T) C01Case {
-	lim := tierLimits()
+	lim := genLimits(t)
 	c := C01Case{Blocks: genHistory(t, lim, true)}
 	addPrunes(t, c.Blocks)
 	nm := rapid.IntRange(2, 3).Draw(t, "nmaps")
